@@ -63,28 +63,37 @@ def do_import():
             print('kept', sid)
 
 
-def do_detect(sub=''):
-    for sid in sorted(os.listdir(SEEDED)):
-        if sub not in sid:
-            continue
-        dst = os.path.join(SEEDED, sid)
-        if not os.path.exists(os.path.join(dst, 'patch.diff')):
-            continue
-        res = seedcheck.detect(dst)
-        meta = json.load(open(os.path.join(dst, 'meta.json')))
-        prop = meta['property']
-        det = {}
-        for p, v in res.items():
-            if isinstance(v, dict) and v['rc'] == 1:
-                det[p] = v['rules']
-        broken = {p: v['broken'] for p, v in res.items() if isinstance(v, dict) and v['rc'] == 2}
-        meta['detection'] = dict(detected=bool(det), detected_by_own_property_check=prop in det, checks_reporting_violation=det, checks_analysis_broken=broken)
-        json.dump(meta, open(os.path.join(dst, 'meta.json'), 'w'), indent=1)
-        print('%-8s own-check:%-5s %s %s' % (sid, prop in det, det, ('BROKEN %s' % list(broken)) if broken else ''))
+def _detect_one(sid):
+    dst = os.path.join(SEEDED, sid)
+    res = seedcheck.detect(dst)
+    meta = json.load(open(os.path.join(dst, 'meta.json')))
+    prop = meta['property']
+    det = {}
+    for p, v in res.items():
+        if isinstance(v, dict) and v['rc'] == 1:
+            det[p] = v['rules']
+    broken = {p: v['broken'] for p, v in res.items() if isinstance(v, dict) and v['rc'] == 2}
+    meta['detection'] = dict(detected=bool(det), detected_by_own_property_check=prop in det, checks_reporting_violation=det, checks_analysis_broken=broken)
+    json.dump(meta, open(os.path.join(dst, 'meta.json'), 'w'), indent=1)
+    return '%-8s own-check:%-5s %s %s' % (sid, prop in det, det, ('BROKEN %s' % list(broken)) if broken else '')
+
+
+def do_detect(sub='', jobs=1):
+    sids = [sid for sid in sorted(os.listdir(SEEDED)) if sub in sid and os.path.exists(os.path.join(SEEDED, sid, 'patch.diff'))]
+    if jobs > 1:
+        from concurrent.futures import ThreadPoolExecutor
+        with ThreadPoolExecutor(max_workers=jobs) as ex:
+            for line in ex.map(_detect_one, sids):
+                print(line, flush=True)
+    else:
+        for sid in sids:
+            print(_detect_one(sid), flush=True)
 
 
 if __name__ == '__main__':
     if sys.argv[1] == 'import':
         do_import()
     else:
-        do_detect(sys.argv[2] if len(sys.argv) > 2 else '')
+        args = [a for a in sys.argv[2:] if not a.startswith('-j')]
+        jobs = [int(a[2:]) for a in sys.argv[2:] if a.startswith('-j')]
+        do_detect(args[0] if args else '', jobs[0] if jobs else 1)
